@@ -561,7 +561,9 @@ def rand_c17(seed, tier, cases=None):
 
 prop(dict(
     id="C17", fam="C17",
-    mc=[("ExtCodecsMC.tla", "ExtCodecsMC.cfg")],
+    mc=[("ExtCodecsMC.tla", "ExtCodecsMC.cfg"),
+        ("ReceiverMC.tla", "ReceiverMC.cfg", {"thorough": {"MaxSteps": "6"}}), ("ReceiverMC.tla", "ReceiverMC_StaleOptional.cfg", {}, "expect_violation"),
+        ("ReceiverMC.tla", "ReceiverMC_StaleList.cfg", {}, "expect_violation"), ("ReceiverMC.tla", "ReceiverMC_CtorShared.cfg", {}, "expect_violation")],
     gen=[("ExtCodecsGen.tla", "ExtCodecsGen.cfg", {"thorough": {"Stride": "1", "Sweep": "TRUE"}})],
     rand=rand_c17,
     trace=("ExtCodecsTrace.tla", "ExtCodecsTrace.cfg"),
@@ -888,7 +890,9 @@ prop(dict(
     id="C09", fam="C09",
     mc=[("PayloaderMC.tla", "PayloaderMC.cfg", {"thorough": {"MaxCalls": "4"}}), ("PayloaderMC.tla", "PayloaderMCAlias.cfg", {}, "expect_violation"),
         ("OwnershipMC.tla", "OwnershipMC.cfg", {"thorough": {"MaxCalls": "4"}}), ("OwnershipMC.tla", "OwnershipMC_Aliasing.cfg", {}, "expect_violation"),
-        ("OwnershipMC.tla", "OwnershipMC_SharedResults.cfg", {}, "expect_violation"), ("OwnershipMC.tla", "OwnershipMC_GlobalScratch.cfg", {}, "expect_violation")],
+        ("OwnershipMC.tla", "OwnershipMC_SharedResults.cfg", {}, "expect_violation"), ("OwnershipMC.tla", "OwnershipMC_GlobalScratch.cfg", {}, "expect_violation"),
+        ("ReceiverMC.tla", "ReceiverMC.cfg", {"thorough": {"MaxSteps": "6"}}), ("ReceiverMC.tla", "ReceiverMC_StaleOptional.cfg", {}, "expect_violation"),
+        ("ReceiverMC.tla", "ReceiverMC_StaleList.cfg", {}, "expect_violation"), ("ReceiverMC.tla", "ReceiverMC_CtorShared.cfg", {}, "expect_violation")],
     gen=[("DepacketizerGen.tla", "DepacketizerGen.cfg", {"thorough": {"Stride": "1", "Sweep": "TRUE", "All2": "TRUE",
                                                                         "Alpha3": "{0, 1, 2, 24, 28, 29, 48, 49, 50, 64, 96, 98, 100, 127, 128, 129, 144, 156, 192, 224, 240, 248, 254, 255}"}})],
     rand=rand_c09, corpus=corpus_c09,
